@@ -263,23 +263,20 @@ class Tracer:
 
     @staticmethod
     def peptide_neighbours(bio):
-        """independent of the peptide_c / peptide_n pointers: residue -> (C of a residue bonded to its N, N of a residue
-        bonded to its C), by distance (1.7 A, the limit update_bonds uses)"""
+        """independent of the peptide_c / peptide_n pointers: residue -> (C of the residue bonded to its N, N of the
+        residue bonded to its C): consecutive amino-acid residues of one chain whose C and N are within 1.7 A"""
         import pdb2pqr.aa as aa
-        cs, ns = [], []
-        for res in bio.residues:
-            if isinstance(res, aa.Amino):
-                for a in res.atoms:
-                    if a.name == "C":
-                        cs.append((res, a))
-                    elif a.name == "N":
-                        ns.append((res, a))
         out = {}
-        for res, n in ns:
-            for r2, c in cs:
-                if r2 is not res and (n.x - c.x) ** 2 + (n.y - c.y) ** 2 + (n.z - c.z) ** 2 <= 1.7 ** 2:
-                    out.setdefault(id(res), [None, None])[0] = c
-                    out.setdefault(id(r2), [None, None])[1] = n
+        for chain in bio.chains:
+            prev = None
+            for res in chain.residues:
+                if isinstance(res, aa.Amino) and isinstance(prev, aa.Amino):
+                    c, n = prev.map.get("C"), res.map.get("N")
+                    if c is not None and n is not None and \
+                            (n.x - c.x) ** 2 + (n.y - c.y) ** 2 + (n.z - c.z) ** 2 <= 1.7 ** 2:
+                        out.setdefault(id(res), [None, None])[0] = c
+                        out.setdefault(id(prev), [None, None])[1] = n
+                prev = res
         return out
 
     def _install_placement(self):
